@@ -23,6 +23,5 @@ Proof.
   all: try (destruct (Nat.eq_dec (owner (Bk s b)) (afor (A s a))) as [eo|neo]; [rewrite eo in *; brk; fin | fin]).
   all: try (exfalso; apply G5; [congruence | apply length_zero_iff_nil; lia]).
   all: try (match goal with H : match apc ?x with _ => _ end = true |- _ => destruct (apc x); cbn in *; try discriminate end; fin).
-  all: idtac "REM B"; match goal with |- ?G => idtac G end.
 Qed.
 End S.
